@@ -2,7 +2,7 @@
    Only the directives of ExtrOcamlBasic are used (bool, option, unit, list, prod, sumbool, sumor);
    N, Z, positive and nat stay the extracted inductive datatypes. *)
 From Coq Require Import ExtrOcamlBasic.
-From EDP Require Import Base.Bytes Dist.Fragment Dist.PidAlloc Dist.Framing Term.Term Order.Cmp Order.HashStream Codec.Encode Codec.Decode Gen.DecoderArms Dist.Control Gen.ControlTable Dist.Md5 Dist.Handshake Codec.DistHeader Elixir.Range Elixir.Wrap Serde.Serde Dist.Receive Dist.Send Node.Node Codec.AtomCache Dist.Connect.
+From EDP Require Import Base.Bytes Dist.Fragment Dist.PidAlloc Dist.Framing Term.Term Order.Cmp Order.HashStream Codec.Encode Codec.Decode Gen.DecoderArms Dist.Control Gen.ControlTable Dist.Md5 Dist.Handshake Codec.DistHeader Elixir.Range Elixir.Wrap Serde.Serde Dist.Receive Dist.Send Node.Node Codec.AtomCache Dist.Connect Node.GenServer.
 Extraction Blacklist String List Nat.
 Extraction "model.ml" Fragment.run Fragment.fev N.of_nat N.to_nat N.add N.mul
   PidAlloc.allocate PidAlloc.make_ref
@@ -19,4 +19,5 @@ Extraction "model.ml" Fragment.run Fragment.fev N.of_nat N.to_nat N.add N.mul
   Receive.receive Receive.receive_half Receive.rstate_init Receive.handle_frame Send.send_frame Send.frame_body Send.control_of Send.uses_pass_through
   Node.step Node.node_init
   AtomCache.sender_header AtomCache.meant AtomCache.push
-  Connect.connect.
+  Connect.connect
+  GenServer.demo_run.
